@@ -452,7 +452,10 @@ def b_events(rng, tier):
                             ok, det = False, ("heliocentric latitude not zero at the node", b0)
                     except Exception as ex:
                         ok, det = False, repr(ex)
-                    env = "inside-known-envelope" if (ok or (isinstance(det, tuple) and abs(det[1]) < 0.1)) else "beyond-known-envelope"
+                    # (known findings: the two-body node passages miss the zero of the VSOP87 latitude by up to 0.06 degree for the
+                    # outer planets, and by up to 0.022 degree -- just above the 0.02 of the property -- for Venus far from J2000)
+                    lim = 0.1 if pl in ("Jupiter", "Saturn", "Uranus", "Neptune") else 0.025
+                    env = "inside-known-envelope" if (ok or (isinstance(det, tuple) and abs(det[1]) < lim)) else "beyond-known-envelope"
                     yield ((pl, "passage_nodes", asc, round(q.jde(), 2), env), ok, det)
 
 
